@@ -829,6 +829,11 @@ fn member_shapes(thorough: bool) -> Vec<(&'static str, Vec<Vec<(&'static str, &'
         // an unresolved / a non-class super listed first (F10: skipped, reported only if nothing is found)
         ("dangling", vec![vec![], vec![p("Nope"), p("C0")], vec![p("E0"), p("C1")]]),
         ("cycle", vec![vec![p("C1")], vec![p("C0")], vec![p("C1")]]),
+        // every look-up — also of names nobody on the cycle declares — must end on a self-loop, a 3-cycle, and a cycle with an
+        // unresolved super class on it
+        ("self-loop", vec![vec![p("C0")], vec![p("C0")], vec![p("C1")]]),
+        ("cycle3", vec![vec![p("C2")], vec![p("C0")], vec![p("C1")]]),
+        ("cycle-dangling", vec![vec![p("C1"), p("Nope")], vec![p("C0")], vec![p("C1")]]),
         ("private-base", vec![vec![], vec![("C0", "priv")], vec![p("C1")]]),
     ];
     if thorough {
